@@ -558,6 +558,14 @@ class Sim:
         elif op == "adv":
             self.env.now += int(t[1])
             self.settle()
+        elif op == "advrx":
+            # the clock has advanced when the next read arrives: no pass of the I/O loop without a ready socket in between
+            self.env.now += int(t[1])
+            s = self.sock(int(t[2]))
+            if s is not None and not s.closed:
+                s.inbox.append(b"".join(build_msg(m) for m in t[3:]))
+                self.env.want_read.add(s)
+            self.settle()
         elif op == "tick":
             self.settle()
         elif op == "mark":
@@ -656,7 +664,27 @@ class Sim:
                 if th.is_alive():
                     live_workers += 1
         self.obs.append(f"RES socketsOpen={open_socks} workersLive={live_workers} crashed={len(self.env.crashes)}")
+        # every container the node, its connections' owner objects and the applications hold (whatever its name): total sizes
+        self.obs.append("ALL " + " ".join(f"{k}={v}" for k, v in sorted(self._container_sizes().items())))
         self.obs.append(f"LSN open={sum(1 for s in self.env.sockets if not s.closed and s.kind == 'listen')}")
+
+    def _container_sizes(self) -> dict:
+        import collections
+        out = {}
+
+        def size(x, depth=0):
+            if isinstance(x, (dict, list, set, tuple, collections.deque)):
+                n = len(x)
+                if depth < 2:
+                    vals = x.values() if isinstance(x, dict) else x
+                    n += sum(size(v, depth + 1) for v in vals if isinstance(v, (dict, list, set, collections.deque)))
+                return n
+            return 0
+        for owner, obj in [("node", self.node)] + [(f"app{i}", a) for i, a in enumerate(self.apps)]:
+            for k, v in vars(obj).items():
+                if isinstance(v, (dict, list, set, collections.deque)) and k not in ("peers", "applications", "statistics_history"):
+                    out[f"{owner}.{k}"] = size(v)
+        return out
 
     def close(self):
         self.env.uninstall()
